@@ -60,14 +60,14 @@ theorem refuses_sha256 (rest : Bytes) (s : Sink) :
 is `(flags & 3) + 1`, and every filter entry has id 0x21 (LZMA2) and exactly one property byte.
 (`MbInt enc v`: `enc` is a multibyte-integer encoding, of at most 9 bytes, of `v`; the value of an
 encoding is unique: `MbEnc.unique`.) -/
-theorem refuses_other_filters (x : Bytes) (s s' : Sink) (rd' : Rd) (hs : s.script = [])
+theorem refuses_other_filters (x : Bytes) (s s' : Sink) (rd' : Rd)
     (h : xzDecompress (Rd.ofBytes x) s = (s', .ok rd')) :
     ∃ f : XzFile, x = f.bytes ∧ ∀ b ∈ f.blocks,
       b.flags.toNat &&& 0x3C = 0 ∧
       b.filters.length = (b.flags.toNat &&& 0x03) + 1 ∧
       ∀ fl ∈ b.filters, MbInt fl.idEnc 0x21 ∧ fl.props.length = 1 ∧
         ∀ id, MbEnc fl.idEnc id → id = 0x21 := by
-  obtain ⟨f, hv, hx, -⟩ := xzDecompress_ok hs h
+  obtain ⟨f, hv, hx, -⟩ := xzDecompress_ok h
   refine ⟨f, hx, fun b hb => ?_⟩
   obtain ⟨rest, hbv⟩ := BlocksValid.of_mem hv.blocks_valid b hb
   refine ⟨hbv.reserved, hbv.nfilters, fun fl hfl => ?_⟩
@@ -104,9 +104,9 @@ theorem refuses_trailing_data (x t : Bytes) (s s' : Sink) (rd' : Rd) (ht : t ≠
   xzDecompress_trailing ht h
 
 /-- two concatenated streams are rejected -/
-theorem refuses_second_stream (x y : Bytes) (s s' s'' : Sink) (rd' rd'' : Rd)
+theorem refuses_second_stream (x y : Bytes) (s s' t t' : Sink) (rd' rd'' : Rd)
     (hx : xzDecompress (Rd.ofBytes x) s = (s', .ok rd'))
-    (hy : xzDecompress (Rd.ofBytes y) s' = (s'', .ok rd'')) :
+    (hy : xzDecompress (Rd.ofBytes y) t = (t', .ok rd'')) :
     xzDecompress (Rd.ofBytes (x ++ y)) s = (s', .error .xz) := by
   apply xzDecompress_trailing _ hx
   rintro rfl
@@ -127,20 +127,35 @@ theorem refuses_stream_padding (x : Bytes) (n : Nat) (s s' : Sink) (rd' : Rd) (h
 
 /-! ### Never partly decoded and reported as success -/
 
-/-- Whenever success is reported (perfect sink), the input is a complete single-stream file using
+/-- Whenever success is reported (any sink), the input is a complete single-stream file using
 only supported features, all of it has been consumed, every integrity check holds
 (`XzFile.Valid`), and the sink received the whole content — nothing less. -/
 theorem never_partly_decoded_as_success (x : Bytes) (s s' : Sink) (rd' : Rd)
-    (hs : s.script = []) (h : xzDecompress (Rd.ofBytes x) s = (s', .ok rd')) :
+    (h : xzDecompress (Rd.ofBytes x) s = (s', .ok rd')) :
     ∃ f : XzFile, f.Valid ∧ x = f.bytes ∧ rd'.rem = [] ∧
       (f.check = .none ∨ f.check = .crc32 ∨ f.check = .crc64) ∧
       (∀ b ∈ f.blocks, b.flags.toNat &&& 0x3C = 0 ∧
         ∀ fl ∈ b.filters, MbInt fl.idEnc 0x21 ∧ fl.props.length = 1) ∧
       s'.out = s.out ++ f.out.toArray := by
-  obtain ⟨f, hv, hx, hr, -, ho, -⟩ := xzDecompress_ok hs h
+  obtain ⟨f, hv, hx, hr, -, ho⟩ := xzDecompress_ok h
   refine ⟨f, hv, hx, hr, hv.check_supported, fun b hb => ?_, ho⟩
   obtain ⟨rest, hbv⟩ := BlocksValid.of_mem hv.blocks_valid b hb
   exact ⟨hbv.reserved, fun fl hfl => ⟨(hbv.filters_ok fl hfl).1, (hbv.filters_ok fl hfl).2.2⟩⟩
+
+/-- The error side (perfect sink): when an error is reported, either nothing at all was written
+(the stream header was refused: `s' = s`), or the stream header is valid with a supported check and
+the sink holds exactly the contents of a prefix `blocks` of the file's blocks, every one of them
+completely validated (`BlocksValid`: header CRC, sizes, padding, check field …) before the point
+of failure.  No byte of a block that failed validation ever reaches the sink. -/
+theorem error_leaves_validated_prefix (x : Bytes) (s s' : Sink) (e : Err) (hs : s.script = [])
+    (h : xzDecompress (Rd.ofBytes x) s = (s', .error e)) :
+    s' = s ∨ ∃ (check : CheckMethod) (blocks : List XzBlock) (tail : Bytes),
+      x = XZ_MAGIC ++ [0, UInt8.ofNat check.id] ++ leBytes 4 (crc32 [0, UInt8.ofNat check.id]) ++
+        blocks.flatMap (·.bytes) ++ tail ∧
+      (check = .none ∨ check = .crc32 ∨ check = .crc64) ∧
+      BlocksValid check blocks tail ∧
+      s'.out = s.out ++ (blocks.flatMap (·.out)).toArray :=
+  xzDecompress_error hs h
 
 /-! ### Non-vacuity and concrete refusals (evaluated by the kernel) -/
 
@@ -206,5 +221,12 @@ example : isXzErrorWithOut [0x68, 0x65, 0x6c, 0x6c, 0x6f]
 example : isXzErrorWithOut [0x68, 0x65, 0x6c, 0x6c, 0x6f]
     (xzDecompress (Rd.ofBytes (helloCrc64 ++ [0, 0, 0, 0])) {}) = true := by
   decide +kernel
+
+/-- the same two facts as instances of the theorems -/
+example : ∃ s', xzDecompress (Rd.ofBytes (helloCrc64 ++ helloCrc64)) {} = (s', .error .xz) ∧
+    xzDecompress (Rd.ofBytes (helloCrc64 ++ List.replicate 4 0)) {} = (s', .error .xz) := by
+  obtain ⟨s', rd', h⟩ := isOk_elim (r := xzDecompress (Rd.ofBytes helloCrc64) {}) (by decide +kernel)
+  exact ⟨s', refuses_second_stream _ _ _ _ _ _ _ _ h h,
+    refuses_stream_padding _ 4 _ _ _ (by decide) h⟩
 
 end Lzma.C18
